@@ -117,6 +117,15 @@ append_derivation(CPPType *base, CPPVisibility vis, bool is_virtual) {
       return;
     }
 
+    // The same goes for a forward declaration of this very class, reached
+    // through a typedef: "struct X; typedef X XT; struct X : XT {}".
+    CPPExtensionType *ext = base->as_extension_type();
+    if (ext != nullptr && base->as_struct_type() == nullptr &&
+        ext->_ident != nullptr && _ident != nullptr &&
+        *ext->_ident == *_ident) {
+      return;
+    }
+
     if (vis == V_unknown && base->as_extension_type() != nullptr) {
       // Default visibility.
       if (base->as_extension_type()->_type == T_class) {
